@@ -251,7 +251,7 @@ class C12(Check):
                   'not proof: exploration is the honest level for a schedule-quantified property.')
     level_note = ('Trusted: CPython 3.12 sys.monitoring event delivery, the baton scheduler, GIL atomicity of '
                   'single instructions. Yield points exist only in clastic/generated/harness code.')
-    runs = {'quick': 2000, 'thorough': 100000}
+    runs = {'quick': 2000, 'thorough': 40000}
     shrink_lists = (('preempts',), ('hot_bits',), ('hot_funcs',), ('ticks',), ('requests',), ('marathon', 'T0'), ('marathon', 'T1'), ('marathon', 'T2'), ('marathon', 'T3'))
     hashseeds = {'quick': ['1:O'], 'thorough': ['1:O', 2]}
     rule = ('seeded schedules (PCT priority-change, uniform random, targeted bursts) plus a complete '
@@ -343,14 +343,17 @@ class C12(Check):
         kinds = [k[0] for k in KINDS]
         rng = Streams(base_seed)['sweep']
         pairs = [(a, b) for a in kinds for b in kinds]
+        mixed = [p for p in pairs if p[0] != p[1]]
         if tier == 'quick':
             # every same-kind pair (two clients of ONE route / error kind: where per-route state is shared), mixed pairs sampled
-            pairs = [(a, a) for a in kinds] + rng.sample([p for p in pairs if p[0] != p[1]], 10)
-            grans = ['line']
+            plan_pairs = {'line': [(a, a) for a in kinds] + rng.sample(mixed, 10)}
         else:
-            grans = ['line', 'ins']
+            # (the number of pairs grows with the square of the catalogue: mixed pairs are sampled at this tier, too)
+            plan_pairs = {'line': [(a, a) for a in kinds] + rng.sample(mixed, 150),
+                          'ins': [(a, a) for a in kinds] + rng.sample(mixed, 25)}
+        grans = sorted(plan_pairs)
         for gran in grans:
-            for a, b in pairs:
+            for a, b in plan_pairs[gran]:
                 ra = make_request(a, 11, 'alice', 'text/html' if a == b else None)
                 ra['name'] = 'T0'
                 rb = make_request(b, 22, 'bob', 'application/json' if a == b else None)
@@ -394,7 +397,7 @@ class C12(Check):
         requests are in flight.  Expected responses are predicted, not measured (a warm-up would pre-fill such tables)."""
         rng = Streams(base_seed)['marathon']
         cfg = {'tok': True, 'eptok': False, 'rendermw': False, 'echo_errors': False, 'slash': 'redirect'}
-        for k in range(48 if tier == 'quick' else 600):
+        for k in range(48 if tier == 'quick' else 240):
             nthreads = rng.choice([3, 4, 4])
             n = rng.choice([180, 220, 260] if tier == 'quick' else [250, 350, 450])
             tag = 'm%d_%d' % (base_seed % 100000, k)
